@@ -169,6 +169,17 @@ class Engine:
                 fh.write('(set-logic ALL)\n' + s.to_smt2())
         if r == z3.unsat:
             return 'discharged', ''
+        if not self.ctx.finite and not self.trial and timeout_ms is None:
+            # second back end: the same query (z3's SMT-LIB print of it) is given to cvc5, whose quantifier
+            # instantiation often closes what z3 leaves `unknown`.  Only an `unsat` answer is used.
+            from .smt2 import cvc5_unsat
+            t1 = time.time()
+            ok, ver = cvc5_unsat(s, max(self.timeout_ms, 20000))
+            self.solver_time += time.time() - t1
+            self.queries += 1
+            if ok:
+                self.used_cvc5 = ver
+                return 'discharged', ''
         if r == z3.sat:
             try:
                 m = s.model()
@@ -238,8 +249,11 @@ class Engine:
             st.assume(goal)
             return False
         t0 = time.time()
+        self.used_cvc5 = None
         status, model = self.check_valid(st, goal)
         ob.time_s += time.time() - t0
+        if self.used_cvc5 and 'cvc5' not in ob.solver:
+            ob.solver += f'+cvc5-{self.used_cvc5}'
         if status == 'refuted':
             if ob.status != 'refuted':
                 ob.model = model
@@ -498,6 +512,8 @@ class Engine:
                             st.assume(self.ctx.forall([kt], lambda k, i=i: z3.Implies(z3.Select(v.z['dom'], k), self.ctx.select(vt, v.z['val'], k)[i] != x)))
                 elif vt == t:
                     st.assume(self.ctx.forall([kt], lambda k: z3.Implies(z3.Select(v.z['dom'], k), z3.Select(v.z['val'], k) != x)))
+        if rec.value:
+            return SV(t, x)
         for v in list(st.heap.values()):
             if isinstance(v, SV):
                 mentions(v)
@@ -1462,8 +1478,8 @@ class CallEval:
                     frames = self.e.st.frames + [{nm: SV(t, k) for nm, t, k in zip(names, ts, ks)}]
                     e = self.e.sub(frames=frames)
                     return e.ev(_l.body).z
-        return SV(BOOL, (self.ctx.forall if univ else self.ctx.exists)(ts, body, pat) if pat else
-                  (self.ctx.forall if univ else self.ctx.exists)(ts, body))
+        return SV(BOOL, (self.ctx.forall if univ else self.ctx.exists)(ts, body, pat, subst=True) if pat else
+                  (self.ctx.forall if univ else self.ctx.exists)(ts, body, subst=True))
 
     def fn_forall(self, n):
         return self._lambda_quant(n, True)
